@@ -21,6 +21,8 @@ import Blue.Proofs.ConstsTieC10
 import Blue.Proofs.Sbbf
 import Blue.Proofs.SbbfSst
 import Blue.Proofs.SstSetsum
+import Blue.Proofs.SstMetaHeadline
+import Blue.Proofs.SstMultiRoll
 /-! # Property C10 — an SST or block returns exactly what was put in, under every cursor movement
 
 Property theorems only (helper lemmas live in `Blue/Proofs/{Wire,EntryCodec,Block,BlockRestarts,
@@ -38,6 +40,15 @@ and `Blue/Model/SstFileB.lean` (the same with `BlockCursor` inside a block; not 
 proved equal to the former on builder-written files).  The correspondence check compares
 them with the real crates byte-for-byte (block bytes; a table's data blocks, index block and final
 block; the packed `SstMetadata`) and observation-for-observation (cursor programs, `load`).
+
+Block `SstMeta` (end of file): the packed `SstMetadata` bytes are a theorem (`metadata_bytes_roundtrip`,
+`metadata_bytes_of_sealed_file`: C15 interpreter on the schema of lib.rs:1306-1326), the file-size
+hypothesis `hsize` is derived from the builders' checks (`file_size_bound_from_table_full`,
+`sst_file_roundtrip_no_size_hyp`, `sst_file_roundtrip_bcur_no_size_hyp`; the bound is coarse, below
+2^63), and the multi-builder's roll-over rule and `split_hint` are characterised on the model
+(`multi_builder_roll_rule`, `multi_builder_hints_and_cuts`; that `MB.roll` / `MB.splitHint` are the
+decisions of the real code stays correspondence, `split_hint` is not yet exercised by the harness;
+no file is empty for `u64` timestamps: `multi_builder_no_empty_file`).
 
 What is a theorem here and what is held by correspondence only is said at each statement; the
 piece named `_partial` is weaker than the property's sentence and says what is missing — and
@@ -1188,6 +1199,199 @@ theorem setsum_instance :
 end SstSetsum
 -- END SstSetsum
 
+-- BEGIN SstMeta
+/-! ## the packed metadata bytes, the file-size bound, the multi-builder's roll-over rule
+
+`Blue/Model/SstMetaMsg.lean` (the `SstMetadata` schema for the C15 interpreter, `split_hint`),
+`Blue/Proofs/{SstMetaBytes,SstSize,SstMetaHeadline,SstMultiRoll}.lean`. -/
+section SstMeta
+open Blue.SstMetaMsg Blue.SstSetsum
+
+/-- NEW (a): `SstMetadata::unpack(stack_pack(m)) = Ok(m)` for every value of the Rust type
+    (`MetaOk`: 32-byte setsum, keys below 2^64 bytes, `u64` timestamps and file size); the encoder
+    and decoder are the C15 derive-macro interpreter on the schema transcribed from lib.rs:1306-1326
+    (fields 1 bytes32, 2 bytes, 3 bytes, 4/5/6 uint64), and the bytes are those of `encMetadata`,
+    the function the check compares with the real `stack_pack` byte for byte -/
+theorem metadata_bytes_roundtrip (m : Metadata) (h : MetaOk m) :
+    unpackMeta (packMeta m) = .ok (some m) ∧ packMeta m = encMetadata m :=
+  ⟨Blue.SstMetaMsg.metadata_bytes_roundtrip m h, packMeta_eq_encMetadata m⟩
+
+/-- NEW (a): the schema handed to the interpreter carries the field numbers and wire types that are
+    regenerated from `#[prototk(n, type)]` of `SstMetadata` on every run (`bytes32` / `bytes` are wire
+    type 2, `uint64` wire type 0; that field 1 is exactly 32 bytes is the transcription) -/
+theorem metadata_schema_from_source :
+    (match metaSchema with
+      | .struct fs => fs.map (fun f => (f.num, f.ty.wt.bits))
+      | _ => []) = Blue.Generated.sstMetadataFields.zip Blue.Generated.sstMetadataWire := metaSchema_from_source
+
+/-- NEW (a): the packed metadata of a builder-written file (filter and setsum computed by `seal`, no
+    file-size hypothesis): `metadata()` returns a value of the Rust type whose packing is the wire
+    image of exactly (digest of the item sum over the accepted entries, first key, last key,
+    smallest / biggest accepted timestamp — `0, 0` for none —, file length), and unpacking those
+    bytes returns it -/
+theorem metadata_bytes_of_sealed_file (hash : List Nat → Vector Nat 8)
+    (hW : ∀ bs, Blue.Setsum.Words (hash bs))
+    (h : List Nat → Nat) (o : SstOpts) (atts : List KV) (f : SstFile)
+    (hseal : (SB.putAll o SB.init atts).2.seal o
+        (Blue.Sbbf.sealFilter h o.bloomBits (SB.putAll o SB.init atts).2).toBytes
+        (sealSetsum hash (SB.putAll o SB.init atts).2) = .ok f)
+    (hts : ∀ e ∈ atts, e.ts ≤ U64MAX)
+    (hbE : ∀ e ∈ atts, KVBytes e) :
+    let acc := (SB.putAll o SB.init atts).2.accepted
+    ∃ t md, openSst crc32c f.bytes = .ok t ∧ t.metadata crc32c = .ok md
+      ∧ md = ⟨Blue.Setsum.digest (itemSum hash acc),
+              (match acc.head? with | some e => e.key | none => []),
+              (match acc.getLast? with | some e => e.key | none => MAX_KEY),
+              f.fin.smallest, f.fin.biggest, f.bytes.length⟩
+      ∧ MetaOk md
+      ∧ packMeta md = encMetadata md
+      ∧ unpackMeta (packMeta md) = .ok (some md)
+      ∧ (∀ e ∈ acc, f.fin.smallest ≤ e.ts ∧ e.ts ≤ f.fin.biggest)
+      ∧ (acc ≠ [] → (∃ e ∈ acc, e.ts = f.fin.smallest) ∧ ∃ e ∈ acc, e.ts = f.fin.biggest)
+      ∧ (acc = [] → f.fin.smallest = 0 ∧ f.fin.biggest = 0)
+      ∧ f.bytes.length ≤ FILE_SIZE_BOUND :=
+  Blue.SstOpen.metadata_bytes_of_sealed_file hash hW h o atts f hseal hts hbE
+
+/-- NEW (c): **the file-size bound derived from the builders' checks**: for every attempt sequence
+    with `u64` timestamps and EVERY option value, a sealed file is at most `FILE_SIZE_BOUND` bytes
+    (an explicit constant below 2^63): fewer than 2^32 data blocks (one index entry each; the index
+    block is a `BlockBuilder` that refuses at `TABLE_FULL_SIZE`), each below 2^30 + 54 framed bytes
+    (`BlockBuilder::put` refuses at `TABLE_FULL_SIZE`, entries are within the key / value limits),
+    the index frame, the filter frame (a `u32` bit count), the final block.  Coarse on purpose: the
+    real table is also held near 960 MiB by `SstBuilder::put`'s own `check_table_size`, which this
+    bound does not use. -/
+theorem file_size_bound_from_table_full (o : SstOpts) (atts : List KV) (filter setsum : List Nat) (f : SstFile)
+    (hseal : (SB.putAll o SB.init atts).2.seal o filter setsum = .ok f)
+    (hts : ∀ e ∈ atts, e.ts ≤ U64MAX)
+    (hsetsum : setsum.length = 32)
+    (hfilter : filter.length = filterLen (SB.putAll o SB.init atts).2.count o.bloomBits) :
+    f.bytes.length ≤ FILE_SIZE_BOUND ∧ FILE_SIZE_BOUND < 9223372036854775808 ∧ FILE_SIZE_BOUND < U64 :=
+  ⟨file_size_bound o atts filter setsum f hseal hts hsetsum hfilter, file_size_bound_lt.1, file_size_bound_lt.2⟩
+
+/-- NEW (c): `sst_file_roundtrip_limits` with the `hsize` hypothesis discharged -/
+theorem sst_file_roundtrip_no_size_hyp (o : SstOpts) (atts : List KV) (filter setsum : List Nat) (f : SstFile)
+    (hseal : (SB.putAll o SB.init atts).2.seal o filter setsum = .ok f)
+    (hts : ∀ e ∈ atts, e.ts ≤ U64MAX)
+    (hsetsum : setsum.length = 32)
+    (hfilter : filter.length = filterLen (SB.putAll o SB.init atts).2.count o.bloomBits)
+    (hbE : ∀ e ∈ atts, KVBytes e) (hbF : Bytes filter) :
+    ∃ t, openSst crc32c f.bytes = .ok t
+      ∧ (∀ ops : List KOp, t.run crc32c t.toFirst ops
+          = (Ref.run ⟨(SB.putAll o SB.init atts).2.accepted, 0⟩ (ops.map KOp.toOp)).map .ok)
+      ∧ (∀ (k : List Nat) (ts : Nat), t.load crc32c k ts = .ok (loadSpec (SB.putAll o SB.init atts).2.accepted k ts))
+      ∧ t.metadata crc32c = .ok
+          ⟨setsum,
+           (match (SB.putAll o SB.init atts).2.accepted.head? with | some e => e.key | none => []),
+           (match (SB.putAll o SB.init atts).2.accepted.getLast? with | some e => e.key | none => MAX_KEY),
+           f.fin.smallest, f.fin.biggest, f.bytes.length⟩
+      ∧ t.forward crc32c = ((SB.putAll o SB.init atts).2.accepted, none)
+      ∧ t.backward crc32c = ((SB.putAll o SB.init atts).2.accepted.reverse, none) :=
+  Blue.SstOpen.sst_file_roundtrip_no_size_hyp o atts filter setsum f hseal hts hsetsum hfilter hbE hbF
+
+/-- NEW (c): `sst_file_roundtrip_bcur_limits` with the `hsize` hypothesis discharged -/
+theorem sst_file_roundtrip_bcur_no_size_hyp (o : SstOpts)
+    (ho : 1 ≤ o.blk.bytesRestartInterval ∧ 1 ≤ o.blk.pairsRestartInterval)
+    (atts : List KV) (filter setsum : List Nat) (f : SstFile)
+    (hseal : (SB.putAll o SB.init atts).2.seal o filter setsum = .ok f)
+    (hts : ∀ e ∈ atts, e.ts ≤ U64MAX)
+    (hsetsum : setsum.length = 32)
+    (hfilter : filter.length = filterLen (SB.putAll o SB.init atts).2.count o.bloomBits)
+    (hbE : ∀ e ∈ atts, KVBytes e) (hbF : Bytes filter) :
+    ∃ t, openSst crc32c f.bytes = .ok t
+      ∧ (∀ ops : List KOp, t.runB crc32c t.toFirstB ops
+          = (Ref.run ⟨(SB.putAll o SB.init atts).2.accepted, 0⟩ (ops.map KOp.toOp)).map .ok)
+      ∧ (∀ (k : List Nat) (ts : Nat), t.loadB crc32c k ts = .ok (loadSpec (SB.putAll o SB.init atts).2.accepted k ts))
+      ∧ t.metadataB crc32c = .ok
+          ⟨setsum,
+           (match (SB.putAll o SB.init atts).2.accepted.head? with | some e => e.key | none => []),
+           (match (SB.putAll o SB.init atts).2.accepted.getLast? with | some e => e.key | none => MAX_KEY),
+           f.fin.smallest, f.fin.biggest, f.bytes.length⟩
+      ∧ t.forwardB crc32c = ((SB.putAll o SB.init atts).2.accepted, none)
+      ∧ t.backwardB crc32c = ((SB.putAll o SB.init atts).2.accepted.reverse, none)
+      ∧ (∀ ops : List KOp, t.runB crc32c t.toFirstB ops = t.run crc32c t.toFirst ops) :=
+  Blue.SstOpen.sst_file_roundtrip_bcur_no_size_hyp o ho atts filter setsum f hseal hts hsetsum hfilter hbE hbF
+
+/-- NEW (b): **the roll-over rule** of `SstMultiBuilder::get_builder` (lib.rs:2138-2155) as an iff on
+    the state: after its test no builder is open — the entry goes to a fresh file — iff no builder
+    was open or the open builder's `approximate_size()` had reached `TABLE_FULL_SIZE` or
+    `options.target_file_size`; when the test fires, the open builder, unchanged, becomes the last
+    sealed file; otherwise the state is unchanged.  (That `MB.roll` is the decision of the real
+    `get_builder` remains correspondence.) -/
+theorem multi_builder_roll_rule (o : SstOpts) (m : MB) :
+    ((m.roll o).cur = none ↔ m.startsNewFile o)
+    ∧ (∀ s, m.cur = some s → (s.approxSize ≥ TABLE_FULL_SIZE ∨ s.approxSize ≥ o.targetFileSize) →
+        m.roll o = { m with sealed := m.sealed ++ [s], cur := none })
+    ∧ (∀ s, m.cur = some s → ¬ (s.approxSize ≥ TABLE_FULL_SIZE ∨ s.approxSize ≥ o.targetFileSize) → m.roll o = m)
+    ∧ (m.cur = none → m.roll o = m) := roll_rule o m
+
+/-- NEW (b): **attempts and split hints** (`split_hint`, lib.rs:2127-2136: seals the open builder
+    iff its approximate size has reached `TABLE_FULL_SIZE` or `minimum_file_size`).  After any run
+    of `put` / `del` attempts and hints: every file is an `SstBuilder` state reached from `new`
+    (the table theorems apply per file); the files' entries in file order are exactly the attempts
+    answered `Ok`, in the order made — a hint neither drops nor reorders an entry — strictly sorted
+    across files; every file except the open (last) one had reached `TABLE_FULL_SIZE`, the target
+    file size, or (cut by a hint) the minimum file size when it was closed.  Extends
+    `multi_builder_files_sorted` (the run without hints: last conjunct). -/
+theorem multi_builder_hints_and_cuts (o : SstOpts) (minSize : Nat) (cs : List MCall) :
+    (let r := MB.runCalls o minSize MB.init cs
+     (∀ s ∈ r.2.files, ∃ as, s = (SB.putAll o SB.init as).2)
+     ∧ r.2.files.flatMap (·.accepted) = acceptedOfB r.1 (attemptsOf cs)
+     ∧ Sorted (acceptedOfB r.1 (attemptsOf cs))
+     ∧ (∀ s ∈ r.2.sealed, s.approxSize ≥ TABLE_FULL_SIZE ∨ s.approxSize ≥ o.targetFileSize ∨ s.approxSize ≥ minSize))
+    ∧ (∀ atts : List KV, MB.runCalls o minSize MB.init (atts.map MCall.att) = MB.putAll o MB.init atts
+        ∧ attemptsOf (atts.map MCall.att) = atts) :=
+  ⟨mb_calls_files o minSize cs, fun atts => runCalls_atts o minSize atts MB.init⟩
+
+/-- NEW (b): **no file is empty**: with `u64` timestamps, after any run of attempts and hints every
+    file — sealed or open — holds at least one accepted entry.  (A file is created only for an
+    entry that passed the multi-builder's own checks; `("", u64::MAX)` is the least key, so the
+    fresh `SstBuilder` and its fresh `BlockBuilder` cannot refuse that entry.  In the code a
+    builder whose first `put` failed would stay open and be sealed empty: the theorem says this
+    cannot happen, I/O errors aside.) -/
+theorem multi_builder_no_empty_file (o : SstOpts) (minSize : Nat) (cs : List MCall)
+    (hts : ∀ e ∈ attemptsOf cs, e.ts ≤ U64MAX) :
+    ∀ s ∈ (MB.runCalls o minSize MB.init cs).2.files, s.accepted ≠ [] := mb_no_empty_file o minSize cs hts
+
+/-! non-vacuity -/
+/-- a concrete metadata value and its bytes: field 1 (tag 0x0a, length 0x20) the setsum, field 2
+    (0x12) the first key "a", field 3 (0x1a) the last key "zz", fields 4, 5, 6 (0x20, 0x28, 0x30)
+    the varints 1, 300 (ac 02), 1000 (e8 07) -/
+def metaSample : Metadata := ⟨List.replicate 32 0xab, [0x61], [0x7a, 0x7a], 1, 300, 1000⟩
+example : packMeta metaSample = [0x0a, 0x20, 0xab, 0xab, 0xab, 0xab, 0xab, 0xab, 0xab, 0xab, 0xab, 0xab, 0xab, 0xab, 0xab, 0xab, 0xab, 0xab, 0xab, 0xab, 0xab, 0xab, 0xab, 0xab, 0xab, 0xab, 0xab, 0xab, 0xab, 0xab, 0xab, 0xab, 0xab, 0xab, 0x12, 0x01, 0x61, 0x1a, 0x02, 0x7a, 0x7a, 0x20, 0x01, 0x28, 0xac, 0x02, 0x30, 0xe8, 0x07] := by decide +kernel
+example : MetaOk metaSample := ⟨by decide, by decide, by decide, by decide, by decide, by decide⟩
+example : (match unpackMeta (packMeta metaSample) with | .ok (some m) => decide (m = metaSample) | _ => false) = true := by
+  decide +kernel
+/-- three accepted entries, target file size 210: one small entry brings a file to approximate
+    size 200, two to 212 >= 210, so the roll-over happens exactly once, before the third entry;
+    all three are accepted and stay in order -/
+def rollOpts : SstOpts := ⟨⟨16, 16⟩, 4096, 17, 210⟩
+def rollAtts : List KV := [⟨[1], 5, some [9]⟩, ⟨[2], 5, some [9]⟩, ⟨[3], 5, none⟩]
+example : (MB.putAll rollOpts MB.init rollAtts).1.map Option.isNone = [true, true, true] := by decide +kernel
+example : (MB.putAll rollOpts MB.init rollAtts).2.sealed.map (fun s => (s.approxSize, s.accepted.map (·.key)))
+    = [(212, [[1], [2]])] := by decide +kernel
+example : (MB.putAll rollOpts MB.init rollAtts).2.cur.map (fun s => s.accepted.map (·.key)) = some [[3]] := by
+  decide +kernel
+/-- the rule on that run: after two entries `startsNewFile` holds, after one it does not -/
+example : (MB.putAll rollOpts MB.init (rollAtts.take 2)).2.startsNewFile rollOpts :=
+  (multi_builder_roll_rule rollOpts _).1.mp (Option.isNone_iff_eq_none.mp (by decide +kernel))
+example : ¬ (MB.putAll rollOpts MB.init (rollAtts.take 1)).2.startsNewFile rollOpts := fun h =>
+  absurd (Option.isNone_iff_eq_none.mpr ((multi_builder_roll_rule rollOpts _).1.mpr h)) (by decide +kernel)
+example : ∀ e ∈ attemptsOf (rollAtts.map MCall.att), e.ts ≤ U64MAX := by decide +kernel
+/-- a hint with minimum file size 100 cuts after the first entry; nothing is dropped or reordered -/
+example : (MB.runCalls rollOpts 100 MB.init [.att ⟨[1], 5, some [9]⟩, .hint, .att ⟨[2], 5, some [9]⟩]).2.files.map
+    (fun s => s.accepted.map (·.key)) = [[[1]], [[2]]] := by decide +kernel
+/-- and a hint below the minimum file size (1000) does nothing -/
+example : (MB.runCalls rollOpts 1000 MB.init [.att ⟨[1], 5, some [9]⟩, .hint, .att ⟨[2], 5, some [9]⟩]).2.files.map
+    (fun s => s.accepted.map (·.key)) = [[[1], [2]]] := by decide +kernel
+/-- the hypotheses of `file_size_bound_from_table_full` / `sst_file_roundtrip_no_size_hyp` hold
+    together on the closed instance of `multi_block_instance` (same statement minus `hsize`); here:
+    the empty table -/
+example : ∃ f, (SB.putAll rollOpts SB.init []).2.seal rollOpts (List.replicate 32 0) (List.replicate 32 0) = .ok f
+    ∧ (List.replicate 32 0).length = filterLen (SB.putAll rollOpts SB.init []).2.count rollOpts.bloomBits :=
+  ⟨_, rfl, by decide⟩
+end SstMeta
+-- END SstMeta
+
 end Blue.Props.C10
 
 #print axioms Blue.Props.C10.limits_from_source
@@ -1256,3 +1460,12 @@ end Blue.Props.C10
 #print axioms Blue.Props.C10.compaction_setsum_conserved
 #print axioms Blue.Props.C10.hash_bytes_are_words
 #print axioms Blue.Props.C10.setsum_instance
+#print axioms Blue.Props.C10.metadata_bytes_roundtrip
+#print axioms Blue.Props.C10.metadata_bytes_of_sealed_file
+#print axioms Blue.Props.C10.file_size_bound_from_table_full
+#print axioms Blue.Props.C10.sst_file_roundtrip_no_size_hyp
+#print axioms Blue.Props.C10.sst_file_roundtrip_bcur_no_size_hyp
+#print axioms Blue.Props.C10.multi_builder_roll_rule
+#print axioms Blue.Props.C10.multi_builder_hints_and_cuts
+#print axioms Blue.Props.C10.multi_builder_no_empty_file
+#print axioms Blue.Props.C10.metadata_schema_from_source
